@@ -95,6 +95,10 @@ def exec_loop(ex, state, st, kind):
         ordinal = -1
     spec = ex.loop_specs.get(ordinal)
     if spec is None:
+        # alternatively a loop may be keyed by its header text (robust inside very large dispatch functions)
+        key = ("iter:" + ast.unparse(st.iter)) if kind == "for" else ("while:" + ast.unparse(st.test))
+        spec = ex.loop_specs.get(key)
+    if spec is None:
         return unroll(ex, state, st, kind)
     return cut_loop(ex, state, st, kind, spec, ordinal)
 
@@ -247,6 +251,15 @@ def cut_loop(ex, state, st, kind, spec, ordinal):
             state.frame.locals[n] = calls.fresh_like(ex, state, cur, n)
     for path in sorted(attrs | subs | set(spec.get("modifies", []))):
         parts = path.split(".")
+        if parts[0] in ex.reg.shapes and len(parts) == 2 and parts[0] not in state.frame.locals:
+            calls.havoc_sym_field(ex, state, parts[0], parts[1])
+            continue
+        vt = spec.get("vars", {}).get(parts[0], "")
+        cur0 = state.frame.locals.get(parts[0])
+        if len(parts) == 2 and (vt.startswith("sym:") or isinstance(cur0, VSym)):
+            # write through a record variable: any record of that shape may be the target
+            calls.havoc_sym_field(ex, state, vt[4:] if vt.startswith("sym:") else cur0.shape, parts[1])
+            continue
         base = None
         f = state.frame
         while f is not None and base is None:
